@@ -9,18 +9,27 @@
   R4  add_attempt_resources re-sends are idempotent (ON DUPLICATE KEY UPDATE quantity = quantity)
   R5  compaction: SUM .. FOR UPDATE, DELETE, INSERT(token 0, that sum) with one key, in one @transaction, nothing else written;
       closed world of writers of the aggregate tables = the two triggers + the two compactors
+  R6  the aggregate upserts run whenever the billed duration changes, in either direction: every condition enclosing an upsert (IF
+      nesting, ELSE branches, code after `IF .. THEN LEAVE`) is TRUE for every (OLD row, stored row) pair that the writers of attempts
+      and the BEFORE UPDATE trigger can produce (the order domain of C03: the before-trigger's outputs are the after-trigger's inputs)
+      with f(NEW) != f(OLD); for the insert trigger: for every current attempt row with f > 0.  Guards are evaluated with the
+      three-valued evaluator on numeric realisations of each ordering class (all gap patterns when the sign of the difference is
+      not fixed by the ordering); a guard that depends on data outside the attempt row is declined.
 Not decided: attribution across a UTC date roll-over, numeric totals.
 """
 from __future__ import annotations
 
 import ast
-from typing import Dict, List, Optional, Tuple
+import itertools
+from typing import Any, Dict, Iterator, List, Optional, Sequence, Tuple
 
+from engines import attemptfacts as af
 from engines import pyfacts as pf
 from engines import sqlfront as sf
 from engines import sqlrules as sr
 from engines.common import AnalysisError, Ctx
 from engines.sqlast import N, parse_expr, text
+from engines.sqleval import UNKNOWN, may
 
 META = dict(
     category='other',
@@ -61,12 +70,284 @@ def _bound_vars(routine: N) -> Dict[str, Tuple[str, str, N]]:
     return out
 
 
-def check_trigger(ctx: Ctx, r: sf.Routine, kind: str) -> None:
+# ----------------------------------------------------------------------------------------------------
+# path conditions inside a trigger body (IF nesting, ELSE, statements after `IF c THEN .. LEAVE/SIGNAL`)
+# ----------------------------------------------------------------------------------------------------
+# fact := ('atom', cond, polarity)            polarity True: cond is TRUE;  False: cond is FALSE or NULL (branch not taken)
+#       | ('nall', (fact, ...))               not all of the facts hold (an earlier leaving path was not taken)
+Fact = Tuple
+
+
+def _exits(stmts: Sequence[N]) -> bool:
+    return bool(stmts) and stmts[-1].kind in ('leave', 'signal')
+
+
+def path_facts(name: str, body: Sequence[N], guard: Tuple[Fact, ...] = (), inner_labels: Tuple[str, ...] = ()) -> Iterator[Tuple[N, Tuple[Fact, ...]]]:
+    """(statement, facts that hold whenever it runs), in program order."""
+    extra: Tuple[Fact, ...] = ()
+    for st in body:
+        g = guard + extra
+        if st.kind == 'if':
+            neg: Tuple[Fact, ...] = ()
+            leaving: List[Tuple[Fact, ...]] = []
+            for c, b in st.branches:
+                yield from path_facts(name, b, g + neg + (('atom', c, True),), inner_labels)
+                if _exits(b):
+                    leaving.append(neg + (('atom', c, True),))
+                neg = neg + (('atom', c, False),)
+            if st.orelse is not None:
+                yield from path_facts(name, st.orelse, g + neg, inner_labels)
+                if _exits(st.orelse):
+                    leaving.append(neg)
+            for path in leaving:
+                extra = extra + ((('nall', path),) if len(path) > 1 else (('atom', path[0][1], not path[0][2]),))
+        elif st.kind in ('loop', 'while', 'block'):
+            lab = getattr(st, 'label', None)
+            if any(x.kind in ('leave', 'iterate') for x in sf.all_statements(st.body)):
+                raise AnalysisError(f'{name}: LEAVE/ITERATE inside a nested {st.kind}: control flow not modelled')
+            yield st, g
+            yield from path_facts(name, st.body, g, inner_labels + ((lab,) if lab else ()))
+        elif st.kind == 'leave':
+            if st is not body[-1]:
+                raise AnalysisError(f'{name}: LEAVE that is not the last statement of its branch')
+            yield st, g
+        elif st.kind == 'iterate':
+            raise AnalysisError(f'{name}: ITERATE: control flow not modelled')
+        elif st.kind == 'declare_handler':
+            raise AnalysisError(f'{name}: condition handler in a billing trigger: control flow not modelled')
+        else:
+            yield st, g
+    return
+
+
+def fact_text(f: Fact) -> str:
+    if f[0] == 'atom':
+        return text(f[1]) if f[2] else f'NOT {text(f[1])}'
+    return 'NOT (' + ' AND '.join(fact_text(x) for x in f[1]) + ')'
+
+
+def eval_fact(f: Fact, known) -> str:
+    """'T' | 'F' | 'U' (depends on data the domain does not fix)."""
+    if f[0] == 'atom':
+        m = may(f[1], known)
+        if m == {True}:
+            return 'T' if f[2] else 'F'
+        if m == {False}:
+            return 'F' if f[2] else 'T'
+        return 'U'
+    vals = [eval_fact(x, known) for x in f[1]]
+    if any(v == 'F' for v in vals):
+        return 'T'
+    if all(v == 'T' for v in vals):
+        return 'F'
+    return 'U'
+
+
+def _is_prefix(a: Tuple[Fact, ...], b: Tuple[Fact, ...]) -> bool:
+    return len(a) <= len(b) and all(x is y or x == y for x, y in zip(a, b))
+
+
+def nested_env(r: sf.Routine, stmts: List[Tuple[N, Tuple[Fact, ...]]]) -> Dict[str, Tuple[N, Tuple[Fact, ...], int]]:
+    """var -> (defining expression with earlier definitions substituted, facts of the SET, program position) for variables assigned
+    exactly once in the routine by a SET (anywhere, also inside IF blocks)."""
+    counts: Dict[str, int] = {}
+    for st, _ in stmts:
+        targets: List[N] = []
+        if st.kind == 'set':
+            targets = [t for t, _ in st.assigns]
+        elif st.kind in ('select', 'fetch') and getattr(st, 'into', None):
+            targets = list(st.into)
+        for t in targets:
+            if sr.is_var(t):
+                counts[t.parts[0].lower()] = counts.get(t.parts[0].lower(), 0) + 1
+    declared = set(sr.declared_vars(r.ast))
+    env: Dict[str, Tuple[N, Tuple[Fact, ...], int]] = {}
+    for i, (st, facts) in enumerate(stmts):
+        if st.kind != 'set':
+            continue
+        for t, v in st.assigns:
+            if sr.is_var(t) and t.parts[0].lower() in declared and counts.get(t.parts[0].lower()) == 1:
+                usable = {k: e for k, (e, f2, _) in env.items() if _is_prefix(f2, facts)}
+                env[t.parts[0].lower()] = (sr.inline_expr(v, usable), facts, i)
+    return env
+
+
+def _inline_fact(f: Fact, env: Dict[str, N]) -> Fact:
+    if f[0] == 'atom':
+        return ('atom', sr.inline_expr(f[1], env), f[2])
+    return ('nall', tuple(_inline_fact(x, env) for x in f[1]))
+
+
+def f_value(s: Optional[int], r: Optional[int]) -> int:
+    return max(r - s, 0) if s is not None and r is not None else 0
+
+
+def _realisations(ranks: Sequence[Optional[int]], vary: bool) -> Iterator[Dict[int, int]]:
+    """rank -> number.  With `vary`, every pattern of small/large gaps between consecutive ranks (covers each sign the difference of two
+    durations can take within one ordering class)."""
+    ks = sorted({x for x in ranks if x is not None})
+    if not ks:
+        yield {}
+        return
+    pats = itertools.product((1, 1000), repeat=len(ks) - 1) if vary else [tuple(1000 for _ in ks[1:])]
+    for gaps in pats:
+        val = {ks[0]: 0 if ks[0] == af.ZERO else 1000}
+        for k0, k1, g in zip(ks, ks[1:], gaps):
+            val[k1] = val[k0] + g
+        yield val
+
+
+_points_cache: Dict[int, List[Tuple[str, str, Dict[str, Any], Dict[str, Any]]]] = {}
+
+
+def attempt_row_changes(ctx: Ctx, prog: sf.SqlProgram) -> List[Tuple[str, str, Dict[str, Any], Dict[str, Any]]]:
+    """Distinct (OLD row, stored row) pairs an UPDATE of attempts can produce: every writer statement x call chain x ordering class,
+    through the parsed BEFORE UPDATE trigger (shared with C03)."""
+    if id(prog) in _points_cache:
+        return _points_cache[id(prog)]
+    trig = prog.routine('attempts_before_update')
+    a = trig.ast
+    ctx.need(a.rkind == 'trigger' and a.timing == 'BEFORE' and a.event == 'UPDATE' and a.table.lower() == 'attempts', 'attempts_before_update is not BEFORE UPDATE ON attempts')
+    ws = af.find_writers(ctx, prog, rule=None)
+    af.refine_from_callers(ctx, prog, ws)
+    ctx.need(len(ws) >= 7, f'only {len(ws)} writers of attempts found')
+    special = [l for l in af.zeroing_reasons(a.body)]
+    seen = set()
+    out = []
+    zero = set(special)
+    for w in sorted(ws, key=lambda w: not w.assigns):       # statements that set nothing (duplicate-key no-op) last: better witnesses first
+        for label, old, new, stored in af.transitions(a.body, w, special):
+            key = (tuple(old[c] for c in af.COLS), tuple(stored[c] for c in af.COLS))
+            if key not in seen:
+                seen.add(key)
+                out.append((w.wid, label, old, stored))
+    # witnesses are taken in this order: OLD rows that real histories produce first (reason set iff end set, not an activation timeout)
+    out.sort(key=lambda p: ((p[2]['reason'] is None) != (p[2]['end_time'] is None), p[2]['reason'] in zero))
+    _points_cache[id(prog)] = out
+    ctx.unit('attempt_row_changes', len(out))
+    return out
+
+
+def check_guards_update(ctx: Ctx, r: sf.Routine, cons: str, st: N, facts: Tuple[Fact, ...], points) -> None:
+    """R6 for the AFTER UPDATE trigger."""
+    if not facts:
+        ctx.ok('R6', cons, 'unconditional')
+        return
+    verdict = _guard_verdict_update(tuple(facts), points)
+    if verdict[0] == 'bad':
+        _, f, wid, label, ov, nv, d = verdict
+        ctx.bad('R6', cons, f'the upsert into the aggregate is skipped although the billed duration of the attempt changes by {d} ms: the enclosing condition `{fact_text(f)}` is not TRUE. '
+                f'Witness: {wid} (call chain {label}) turns OLD={ov} into the stored row NEW={nv}; f(NEW) - f(OLD) = {d} with f = GREATEST(COALESCE(rollup - start, 0), 0), '
+                f'so every aggregate keeps quantity x {f_value(ov["start_time"], ov["rollup_time"])} while the attempt now says quantity x {f_value(nv["start_time"], nv["rollup_time"])}',
+                r.file, r.line_of(st), extra={'writer': wid, 'chain': label, 'old': ov, 'new': nv, 'diff': d, 'condition': fact_text(f)})
+        return
+    if verdict[0] == 'undecided':
+        raise AnalysisError(f'{cons}: the upsert is conditional on `{verdict[1]}`, which depends on data outside the attempt row; cannot decide whether increments are skipped')
+    ctx.ok('R6', cons, {'conditions': [fact_text(f) for f in facts], 'row_changes_with_nonzero_difference': verdict[1]})
+
+
+_verdicts: Dict[str, tuple] = {}
+
+
+def _guard_verdict_update(facts: Tuple[Fact, ...], points) -> tuple:
+    key = ' && '.join(fact_text(f) for f in facts)
+    if key in _verdicts:
+        return _verdicts[key]
+    _verdicts[key] = v = _guard_verdict_update0(facts, points)
+    return v
+
+
+def _guard_verdict_update0(facts: Tuple[Fact, ...], points) -> tuple:
+    undecided: Optional[str] = None
+    cases = 0
+    uses_reason = any(n.kind == 'col' and n.parts[-1].lower() == 'reason' for f in facts for n in _fact_nodes(f))
+    done = set()
+    for wid, label, old, new in points:
+        so, ro, sn, rn = old['start_time'], old['rollup_time'], new['start_time'], new['rollup_time']
+        pos_o = so is not None and ro is not None and ro > so
+        pos_n = sn is not None and rn is not None and rn > sn
+        if not pos_o and not pos_n:
+            continue
+        if pos_o and pos_n and (so, ro) == (sn, rn):
+            continue
+        pk = (tuple(old[c] for c in af.TIME_COLS), tuple(new[c] for c in af.TIME_COLS)) + ((old['reason'], new['reason']) if uses_reason else ())
+        if pk in done:
+            continue
+        done.add(pk)
+        ranks = [old[c] for c in af.TIME_COLS] + [new[c] for c in af.TIME_COLS]
+        for val in _realisations(ranks, vary=pos_o and pos_n):
+            ov = {c: (None if old[c] is None else val[old[c]]) for c in af.TIME_COLS}
+            nv = {c: (None if new[c] is None else val[new[c]]) for c in af.TIME_COLS}
+            ov['reason'], nv['reason'] = old['reason'], new['reason']
+            d = f_value(nv['start_time'], nv['rollup_time']) - f_value(ov['start_time'], ov['rollup_time'])
+            if d == 0:
+                continue
+            cases += 1
+
+            def known(n: N):
+                if n.kind == 'col' and len(n.parts) == 2 and n.parts[0].upper() in ('OLD', 'NEW') and n.parts[1].lower() in af.COLS:
+                    return (ov if n.parts[0].upper() == 'OLD' else nv)[n.parts[1].lower()]
+                return UNKNOWN
+            for f in facts:
+                v = eval_fact(f, known)
+                if v == 'F':
+                    return ('bad', f, wid, label, ov, nv, d)
+                if v == 'U' and undecided is None:
+                    undecided = fact_text(f)
+    if undecided is not None:
+        return ('undecided', undecided)
+    return ('ok', cases)
+
+
+def _fact_nodes(f: Fact) -> Iterator[N]:
+    if f[0] == 'atom':
+        yield from f[1].walk()
+    else:
+        for x in f[1]:
+            yield from _fact_nodes(x)
+
+
+def check_guards_insert(ctx: Ctx, r: sf.Routine, cons: str, st: N, facts: Tuple[Fact, ...], bound: Dict[str, Tuple[str, str, N]]) -> None:
+    """R6 for the AFTER INSERT trigger on attempt_resources: the current attempt row (start, rollup) is arbitrary."""
+    if not facts:
+        ctx.ok('R6', cons, 'unconditional')
+        return
+    undecided: Optional[str] = None
+    cases = 0
+    for s_, r_ in af.weak_orderings(2):
+        if not (s_ is not None and r_ is not None and r_ > s_):
+            continue
+        for val in _realisations([s_, r_], vary=True):
+            row = {'start_time': val[s_], 'rollup_time': val[r_]}
+            cases += 1
+
+            def known(n: N):
+                if sr.is_var(n) and n.parts[0].lower() in bound and bound[n.parts[0].lower()][0] == 'attempts' and bound[n.parts[0].lower()][1] in row:
+                    return row[bound[n.parts[0].lower()][1]]
+                return UNKNOWN
+            for f in facts:
+                v = eval_fact(f, known)
+                if v == 'F':
+                    ctx.bad('R6', cons, f'the upsert is skipped for a resource registered after the attempt was already billed: the enclosing condition `{fact_text(f)}` is not TRUE for an attempt row with '
+                            f'start_time={row["start_time"]}, rollup_time={row["rollup_time"]} (billed {row["rollup_time"] - row["start_time"]} ms): quantity x billed time of the new resource never reaches the aggregate',
+                            r.file, r.line_of(st), extra={'attempt_row': row, 'condition': fact_text(f)})
+                    return
+                if v == 'U' and undecided is None:
+                    undecided = fact_text(f)
+    if undecided is not None:
+        raise AnalysisError(f'{cons}: the upsert is conditional on `{undecided}`, which depends on data outside the attempt row; cannot decide whether increments are skipped')
+    ctx.ok('R6', cons, {'conditions': [fact_text(f) for f in facts], 'attempt_rows_with_billed_time': cases})
+
+
+def check_trigger(ctx: Ctx, prog: sf.SqlProgram, r: sf.Routine, kind: str) -> None:
     a = r.ast
-    env = sr.inline_sets(a.body, sr.declared_vars(a))
+    stmts = list(path_facts(r.name, a.body))
+    facts_of = {id(st): f for st, f in stmts}
+    pos_of = {id(st): i for i, (st, _) in enumerate(stmts)}
+    nenv = nested_env(r, stmts)
     bound = _bound_vars(a)
-    diff = env.get('msec_diff_rollup')
-    ctx.need(diff is not None, f'{r.name}: msec_diff_rollup is not a single straight-line SET')
+    ctx.need('msec_diff_rollup' in nenv, f'{r.name}: msec_diff_rollup is not assigned by exactly one SET')
+    diff, diff_facts, diff_pos = nenv['msec_diff_rollup']
     cons0 = f'{r.file}::{r.name}'
     # R1
     if kind == 'update':
@@ -86,11 +367,14 @@ def check_trigger(ctx: Ctx, r: sf.Routine, kind: str) -> None:
                 st = bound[rv[0]][2]
                 ok = bound[rv[0]][0] == 'attempts' and bound[sv[0]][2] is st and sr.has_eq(st.where, 'batch_id', 'new.batch_id') and \
                     sr.has_eq(st.where, 'job_id', 'new.job_id') and sr.has_eq(st.where, 'attempt_id', 'new.attempt_id')
+                if ok:
+                    ctx.need(_is_prefix(facts_of[id(st)], diff_facts) and pos_of[id(st)] < diff_pos, f'{r.name}: the attempt row is not read on every path before msec_diff_rollup is computed')
         ctx.check(ok, 'R1', cons0 + '::duration of current attempt', f'the trigger bills `{text(diff)}`; expected f(start, rollup) read from the attempts row (NEW.batch_id, NEW.job_id, NEW.attempt_id)',
                   r.file, r.line)
+    env = {k: e for k, (e, _, _) in nenv.items()}
     # R2 / R3
     per_table: Dict[str, List[Tuple[N, tuple]]] = {}
-    for st, guard in sf.guarded_statements(a.body):
+    for st, guard in stmts:
         if st.kind == 'insert' and st.table.lower() in TABLES:
             per_table.setdefault(st.table.lower(), []).append((st, guard))
         elif st.kind in ('update', 'delete') and any(t.lower() in TABLES for t, _ in sf.written_tables(st)):
@@ -104,10 +388,19 @@ def check_trigger(ctx: Ctx, r: sf.Routine, kind: str) -> None:
             continue
         st, guard = sts[0]
         ins, dup, uvars = sr.insert_colmap(st)
-        # guard: only `msec_diff_rollup != 0` (or none)
-        gt = [(text(c).lower(), pol) for c, pol in guard]
-        ctx.check(all(pol and g in ('(msec_diff_rollup != 0)', '(msec_diff_rollup <> 0)') for g, pol in gt), 'R2', cons + '::guard',
-                  f'the insert is conditional on {gt}: increments would be skipped', r.file, r.line_of(st))
+        # every variable the statement uses is defined on every path that reaches it
+        used = {text(n).lower() for n in st.walk() if sr.is_var(n)}
+        for v in sorted(used & set(nenv)):
+            ctx.need(_is_prefix(nenv[v][1], guard) and nenv[v][2] < pos_of[id(st)], f'{r.name}: `{v}` is not assigned on every path that reaches the insert into {tbl}')
+        for v in sorted(used & set(bound)):
+            sel0 = bound[v][2]
+            ctx.need(_is_prefix(facts_of[id(sel0)], guard) and pos_of[id(sel0)] < pos_of[id(st)], f'{r.name}: `{v}` is not read on every path that reaches the insert into {tbl}')
+        # R6: conditions enclosing the upsert, with single-assignment variables inlined
+        facts = tuple(_inline_fact(f, {k: e for k, (e, f2, p2) in nenv.items() if _is_prefix(f2, guard) and p2 < pos_of[id(st)]}) for f in guard)
+        if kind == 'update':
+            check_guards_update(ctx, r, cons + '::guard', st, facts, attempt_row_changes(ctx, prog))
+        else:
+            check_guards_insert(ctx, r, cons + '::guard', st, facts, bound)
         use = ins.get('usage')
         ctx.need(use is not None, f'{r.name}: insert into {tbl} has no usage column')
         fac = _product_factors(use)
@@ -264,14 +557,16 @@ def r1_audit(ctx: Ctx) -> None:
 def run(ctx: Ctx) -> None:
     ctx.explanation = 'Obligations of the billing-aggregate invariant decided on both billing triggers (effective SQL), the resource registration insert, the compactors and the audit.'
     ctx.rule('R1', 'same billed-duration function f in the update trigger (f(NEW)-f(OLD)), the insert trigger (f(current attempt)) and the audit queries', 6)
-    ctx.rule('R2', 'each trigger inserts once into each of the four aggregates: amount = diff x quantity, on-duplicate adds the same, keys from the attempt\'s batch/job/owner, ancestors fan-out', 42)
+    ctx.rule('R2', 'each trigger inserts once into each of the four aggregates: amount = diff x quantity, on-duplicate adds the same, keys from the attempt\'s batch/job/owner, ancestors fan-out', 34)
     ctx.rule('R3', 'rows billed: update trigger = attempt_resources of the full attempt key; insert trigger = the inserted row only', 8)
     ctx.rule('R4', 'add_attempt_resources is idempotent on re-send', 2)
     ctx.rule('R5', 'compaction preserves sums (SUM FOR UPDATE, DELETE, INSERT token 0 with one key in one transaction); closed world of aggregate writers', 20)
+    ctx.rule('R6', 'the aggregate upserts run whenever the billed duration changes (either direction): enclosing conditions are TRUE on every reachable (OLD, stored) row pair with f(NEW) != f(OLD)', 8)
+    ctx.assume('R6: the rows an UPDATE of attempts can store are those the writer statements and attempts_before_update produce from an OLD row with rollup <= end (order domain shared with C03)')
     ctx.assume('MySQL: AFTER INSERT trigger does not fire when INSERT .. ON DUPLICATE KEY UPDATE takes the update path; AFTER UPDATE fires once per changed row')
     prog = sf.load_program()
-    check_trigger(ctx, prog.routine('attempts_after_update'), 'update')
-    check_trigger(ctx, prog.routine('attempt_resources_after_insert'), 'insert')
+    check_trigger(ctx, prog, prog.routine('attempts_after_update'), 'update')
+    check_trigger(ctx, prog, prog.routine('attempt_resources_after_insert'), 'insert')
     r1_audit(ctx)
     r4(ctx)
     r5(ctx, prog)
